@@ -273,10 +273,12 @@ def parse_answer(line: str):
         raise core.Infra(f"model driver rejected the case: {line[:200]}")
     mod = ts[1] == "mod=1"
     err = ts[2][4:]
-    assert ts[3] == "NEED"
-    k = int(ts[4])
-    need = ts[5 : 5 + k]
-    p = 5 + k
+    assert ts[3].startswith("prune=") and ts[4] == "NEED"
+    if ts[3] == "prune=0" and err == "-":
+        err = "model:dangling-initializer"  # the side condition of fold_fragmentA_preserves_partial fails on this case
+    k = int(ts[5])
+    need = ts[6 : 6 + k]
+    p = 6 + k
     assert ts[p] == "HIST"
     hcount = int(ts[p + 1])
     hist = ts[p + 2 : p + 2 + hcount]
